@@ -90,6 +90,9 @@ func TestPropC07(t *testing.T) {
 		if g.Misused {
 			cls = append(cls, "misuse")
 		}
+		if g.Deferred {
+			cls = append(cls, "pipeline_read_behind_later_lets")
+		}
 		if g.LazyOperand {
 			cls = append(cls, "lazy_pipeline_as_list_argument")
 		}
